@@ -106,7 +106,12 @@ def pure_defs():
 (define-fun py_isdecimal ((s String)) Bool (str.in_re s (re.+ re_decimal)))
 ; the text int() accepts after stripping: optional sign, decimal digits, single underscores between digits
 (define-fun re_int_body () RegLan (re.++ (re.opt (re.union (str.to_re "+") (str.to_re "-"))) (re.+ re_decimal) (re.* (re.++ (str.to_re "_") (re.+ re_decimal)))))
-(define-fun py_int_ok ((s String)) Bool (str.in_re s (re.++ (re.* re_ws) re_int_body (re.* re_ws))))
+; CPython >= 3.11 refuses to convert text with more than 4300 digits (sys.get_int_max_str_digits()): accepted for
+; sure up to 4300 characters, refused for sure when more than 4300 decimal digit characters and nothing else,
+; unknown (int_digits_ok) for longer text that also holds blanks, a sign or underscores
+(declare-fun int_digits_ok (String) Bool)
+(define-fun py_int_ok ((s String)) Bool (and (str.in_re s (re.++ (re.* re_ws) re_int_body (re.* re_ws)))
+  (or (<= (str.len s) 4300) (and (int_digits_ok s) (not (str.in_re s (re.+ re_decimal)))))))
 (define-fun is_ascii_nat ((s String)) Bool (str.in_re s (re.+ re_ascii_digit)))
 ; value of int(s) when py_int_ok(s): exact for plain ASCII digit strings, otherwise an
 ; uninterpreted integer (non-negative when there is no minus sign)
@@ -125,6 +130,7 @@ ASSUMPTIONS = [
     "Python ints are mathematical integers (exact); bool is a subtype of int (VBool/VInt with as_int)",
     "floats are an abstract sort: no float arithmetic is reasoned about (float_of_*, float_lt uninterpreted)",
     "str.strip()/isspace(), str.isdigit() and int()'s digit set are the code point classes computed from the running CPython's unicodedata (re_ws, re_isdigit, re_decimal), restricted to the SMT-LIB alphabet U+0000..U+2FFFF",
+    "int(s) raises ValueError for text with more than 4300 digits (default sys.get_int_max_str_digits()); str(i) of an int with more than 4300 digits is NOT modelled as raising",
     "int(s) for text with non-ASCII decimal digits, underscores or sign returns an uninterpreted integer (non-negative if no minus sign); exact for plain ASCII digit strings",
     "str.lower() is uninterpreted (str_lower) except on literals",
     "values outside {None,bool,int,float,str,tuple,list,odML objects,classes} are opaque (VOpq) with uninterpreted, non-raising truthiness and no methods",
